@@ -135,6 +135,11 @@ func errClass(err error) string {
 	return b.String()
 }
 
+var (
+	c17Ser      *simdjson.Serializer
+	c17PrevBlob []byte
+)
+
 // c17Dst: recycled Deserialize destination (single-threaded driver).
 var (
 	c17Dst *simdjson.ParsedJson
@@ -168,12 +173,32 @@ func (w *W) c17Judge(st *c01State, g string, doc []byte, nd bool) {
 			continue
 		}
 		mode := compModes[(st.n/4+ci)%4]
-		ser := simdjson.NewSerializer()
+		// one Serializer for the whole run (it may be reused), and now and then the call before this
+		// one failed in the middle of rebuilding a tape (the previous blob with one tag byte replaced
+		// by a letter that is no tag, two thirds into the tag stream: scopes are open at that point)
+		if c17Ser == nil {
+			c17Ser = simdjson.NewSerializer()
+		}
+		ser := c17Ser
 		ser.CompressMode(mode)
+		if c17PrevBlob != nil && st.n%3 == 0 {
+			walk.Guard(func() error {
+				if c, err := parseContainer(c17PrevBlob); err == nil && len(c.plain[2]) > 3 {
+					c.plain[2][len(c.plain[2])*2/3] = 'Z'
+					if _, err := ser.Deserialize(c.build(), nil); err != nil {
+						w.Count("deserialized_after_a_call_that_failed_mid_tape", 1)
+					}
+				}
+				return nil
+			})
+		}
 		var out *simdjson.ParsedJson
 		var derr error
 		pan = walk.Guard(func() error {
 			blob := ser.Serialize(nil, *pj)
+			if len(blob) < 1<<20 {
+				c17PrevBlob = append(c17PrevBlob[:0], blob...)
+			}
 			// every other result lands in the destination the previous document (of another size,
 			// other string lengths) was deserialized into
 			out, derr = ser.Deserialize(blob, c17Dst)
